@@ -14,7 +14,7 @@ MODULES = ["error", "format", "token", "term", "de_bruijn", "evaluator", "normal
 TARGET_OF = {"step_strict": "step", "evaluate": "step"}
 KNOWN = {"signed_shift", "unsigned_shift", "open", "free_variables", "is_value", "step",
          "reassociate_applications", "reassociate_products_and_quotients", "reassociate_sums_and_differences", "packrat_complete", "resolve", "pipeline",
-         "normalize_weak_head", "syntactically_equal", "unify"}
+         "normalize_weak_head", "syntactically_equal", "unify", "coherence"}
 PACKRAT_COUNT = 25000   # each case runs an exhaustive derivation search over grammar.y: about 1 ms
 
 
@@ -71,11 +71,11 @@ def bounded_clauses(prop, repo, verif, seed=1, count=150000):
     scratch = tempfile.mkdtemp(prefix="gramwit.", dir="/var/tmp")
     try:
         binary = build(repo, verif, scratch)
-        targets = ["unify", "normalize_weak_head", "syntactically_equal"]
+        targets = ["unify", "normalize_weak_head", "syntactically_equal", "coherence"]
         out = run_targets(binary, targets, seed, count, repo)
         summary = {"targets": targets, "cases_per_target": count, "seed": seed,
                    "bound": "terms of depth <= 3 over every term former, contexts of 8 entries (plain or with let-bound entries), reference normaliser with fuel 400/600; cases on which the reference runs out of fuel are skipped",
-                   "what": "unify: true only if the erased normal forms agree (also proved), true if they agree (completeness: bounded evidence only), context restored; normalize_weak_head / syntactically_equal: equal to the reference; no crash of the real code"}
+                   "what": "coherence: on closed terms whose evaluation terminates, the real evaluate and the real normalize_weak_head end in the same literal / truth value (C06, first sentence, on the real code -- bounded evidence for what the proof derives from the ASSUMED confluence axiom); unify: true only if the erased normal forms agree (also proved), true if they agree (completeness: bounded evidence only), context restored; normalize_weak_head / syntactically_equal: equal to the reference; no crash of the real code"}
         if not out:
             return None, summary
         return {
